@@ -864,6 +864,7 @@ void DGXMLScanner::scanDocTypeDecl()
         , fMemoryManager
     );
     dtdScanner.setScannerInfo(this, &fReaderMgr, &fBufMgr);
+    ReaderStackJanitor janReaderStack(&fReaderMgr);
 
     //  If the next character is '[' then we have no external subset cause
     //  there is no system id, just the opening character of the internal
@@ -2168,6 +2169,7 @@ Grammar* DGXMLScanner::loadDTDGrammar(const InputSource& src,
         , fMemoryManager
     );
     dtdScanner.setScannerInfo(this, &fReaderMgr, &fBufMgr);
+    ReaderStackJanitor janReaderStack(&fReaderMgr);
 
     // Tell it its not in an include section
     dtdScanner.scanExtSubsetDecl(false, true);
